@@ -290,8 +290,9 @@ class CFG:
     def succs(self, n, labels=None):
         return [b for b, l in self.succ[n] if labels is None or l in labels]
 
-    def path(self, starts, goal_set, avoid=()):
-        """A shortest path (list of nodes) from any start to any goal avoiding `avoid`."""
+    def path(self, starts, goal_set, avoid=(), edge_ok=None):
+        """A shortest path (list of nodes) from any start to any goal avoiding `avoid`
+        (and using only edges accepted by `edge_ok(a, b, label)` when given)."""
         from collections import deque
         avoid = set(avoid)
         prev = {}
@@ -305,8 +306,10 @@ class CFG:
             dq.append(s)
         while dq:
             a = dq.popleft()
-            for b, _ in self.succ[a]:
+            for b, _lab in self.succ[a]:
                 if b in prev or b in avoid:
+                    continue
+                if edge_ok is not None and not edge_ok(a, b, _lab):
                     continue
                 prev[b] = a
                 if b in goal_set:
